@@ -159,6 +159,7 @@ class Engine:
         self.frames = []
         self.sinks = []
         self.pure = 0
+        self.dry = 0
         self.classes = {}        # class name -> (mod, ClassDef)
         self.trusted_used = set()
         self.assumptions_used = set()
@@ -174,6 +175,8 @@ class Engine:
         return self.frames[-1]
 
     def oblige(self, st, kind, goal, node=None, note=''):
+        if self.dry:
+            return
         goal = simp(goal)
         if goal is True:
             return
@@ -287,6 +290,22 @@ class Engine:
                     m2 = source.load(rp)
                     if imp[2] in m2.classes:
                         self.classes[name] = (m2, m2.classes[imp[2]])
+                        return self.classes[name]
+                rp = source.module_relpath(imp[1] + '.' + imp[2]) if imp[1] else None
+                if rp:
+                    m2 = source.load(rp)       # `from package import module`: a class named like the module
+                    if name in m2.classes:
+                        self.classes[name] = (m2, m2.classes[name])
+                        return self.classes[name]
+        # a class of any module imported (as a module) by a loaded module
+        for m in list(source._modules.values()):
+            for imp in m.imports.values():
+                dotted = imp[1] if imp[0] == 'module' else (imp[1] + '.' + imp[2] if imp[1] else imp[2])
+                rp = source.module_relpath(dotted)
+                if rp and rp not in source._modules:
+                    m2 = source.load(rp)
+                    if name in m2.classes:
+                        self.classes[name] = (m2, m2.classes[name])
                         return self.classes[name]
         return None
 
@@ -705,6 +724,11 @@ class Engine:
                 return [(st, a + b)]
             return [(st, z3.Concat(to_str_term(a), to_str_term(b)))]
         if op == '%' and is_strlike(a):
+            if isinstance(a, str) and is_concrete(b):
+                try:
+                    return [(st, a % (tuple(b.items) if isinstance(b, Tup) else b))]
+                except Exception:
+                    pass
             return [(st, z3.String(uid('fmt')))]
         if isinstance(a, Opt) or isinstance(b, Opt) or a is None or b is None:
             # None in arithmetic: TypeError
@@ -764,6 +788,8 @@ class Engine:
                 if any(isinstance(d, ast.Name) and d.id == 'property' for d in fnode.decorator_list):
                     rs = self.inline_call(UserFn(mod, q, fnode, v), [], {}, st, node, merge=True)
                     return rs[0][1]
+                if any(isinstance(d, ast.Name) and d.id == 'staticmethod' for d in fnode.decorator_list):
+                    return UserFn(mod, q, fnode)
                 return UserFn(mod, q, fnode, v)
             bm = self.builtins.get('cls:%s.%s' % (o.cls, attr))
             if bm is not None:
@@ -777,6 +803,8 @@ class Engine:
                 return v.fields[attr]
             ent = self.find_method(v.cls, attr)
             if ent is not None and ent[2] is not None:
+                if any(isinstance(d, ast.Name) and d.id == 'property' for d in ent[2].decorator_list):
+                    return self.inline_call(UserFn(ent[0], ent[1], ent[2], v), [], {}, st, node, merge=True)[0][1]
                 return UserFn(ent[0], ent[1], ent[2], v)
             if ent is not None:
                 return self.module_const(ent[0], ent[1])
@@ -1508,6 +1536,9 @@ class Engine:
     def objectify(self, v, st):
         """Records inside a returned tuple become heap objects (a callee returning fresh objects)."""
         if isinstance(v, Rec):
+            ent = self.find_class(v.cls)
+            if ent is not None and any('NamedTuple' in ast.unparse(b) for b in ent[1].bases):
+                return v        # immutable value class
             return self.rec_to_obj(v, st)
         if isinstance(v, Tup):
             return Tup([self.objectify(x, st) for x in v.items])
@@ -1914,11 +1945,90 @@ class Engine:
                                         paths.add(recv + p[4:])
         return paths
 
-    def havoc_for_loop(self, body, st, sp, has_yield):
+    def havoc_cells(self, st, cells, kinds_from=None):
+        """Havoc heap cells given as (oid, field): the value is replaced by a fresh one of the same kind."""
+        for oid, f in sorted(cells):
+            o = st.heap.get(oid)
+            if o is None:
+                continue
+            cur = o.fields.get(f)
+            src = kinds_from.get((oid, f), cur) if kinds_from else cur
+            try:
+                k = self.kind_in_state(src, st) if not isinstance(src, Kind) else src
+            except Unsupported:
+                try:
+                    k = self.kind_in_state(cur, st)
+                except Unsupported as e:
+                    raise Unsupported('cannot havoc field %s.%s for loop: %s' % (o.cls, f, e))
+            facts = []
+            nv = fresh(k, uid(f), (), facts)
+            if isinstance(k, KRec) and (isinstance(cur, Ref) or isinstance(src, Ref)):
+                nv = self.rec_to_obj(nv, st)
+            o.fields[f] = nv
+            for fa in facts:
+                st.assume(fa)
+
+    def discover_modified(self, stmt, st, sp, guard, pre_body, hy):
+        """Dry-run the loop body symbolically (no obligations) from a havocked copy of the state and report every
+        heap cell and local that an iteration can change; iterated to a fixpoint.  Catches effects the syntactic scan
+        cannot see (builtin file methods, callee contracts on objects passed as arguments, inlined callees)."""
+        cells, names = set(), set()
+        kinds_from = {}
+        for _round in range(4):
+            trial = st.copy()
+            try:
+                self.havoc_for_loop(stmt.body, trial, sp, hy, extra_cells=cells, extra_names=names, kinds_from=kinds_from)
+            except (Unsupported, ContractError):
+                raise
+            if pre_body is not None:
+                pre_body('havoc', trial)
+            base_heap = {oid: dict(o.fields) for oid, o in trial.heap.items()}
+            base_env = dict(trial.env)
+            self.dry += 1
+            self.sinks.append([])
+            outs = []
+            try:
+                try:
+                    if guard is not None:
+                        starts = [s for s, g in self.ev(guard, trial)]
+                    else:
+                        starts = [trial]
+                    for s0 in starts:
+                        bs = pre_body('enter', s0) if pre_body is not None else [s0]
+                        for sb in bs:
+                            outs += [s2 for s2, oc in self.exec_block(stmt.body, sb)]
+                except (Unsupported, ContractError):
+                    outs = outs      # the real pass will report it
+                outs += [s2 for s2, e, ln in self.sinks[-1]]
+            finally:
+                self.sinks.pop()
+                self.dry -= 1
+            new_cells, new_names = set(), set()
+            for s2 in outs:
+                for oid, fields in base_heap.items():
+                    o2 = s2.heap.get(oid)
+                    if o2 is None:
+                        continue
+                    for f, v in o2.fields.items():
+                        if fields.get(f, None) is not v and (oid, f) not in cells:
+                            if oid in st.heap:
+                                new_cells.add((oid, f))
+                                kinds_from.setdefault((oid, f), v if f not in st.heap[oid].fields or st.heap[oid].fields[f] is None else st.heap[oid].fields[f])
+                for n, v in s2.env.items():
+                    if n in base_env and base_env[n] is not v and n in st.env and n not in names:
+                        new_names.add(n)
+            if not new_cells and not new_names:
+                break
+            cells |= new_cells
+            names |= new_names
+        return cells, names, kinds_from
+
+    def havoc_for_loop(self, body, st, sp, has_yield, extra_cells=(), extra_names=(), kinds_from=None):
         names, attrs = self.assigned_in(body)
         attrs |= self.callee_modifies(body, st)
         attrs |= set(x for x in sp.havoc_extra if '.' in x)
         names |= set(x for x in sp.havoc_extra if '.' not in x)
+        names |= set(extra_names)
         for n in sorted(names):
             if n in st.env:
                 cur = st.env[n]
@@ -1926,18 +2036,22 @@ class Engine:
                 if k is None:
                     if isinstance(cur, (UserFn, Fn, ClassVal, DictVal)):
                         continue
-                    if isinstance(cur, Ref):
-                        raise Unsupported('loop reassigns object variable %s' % n)
-                    k = kind_of(cur)
+                    k = self.kind_in_state(cur, st) if isinstance(cur, Ref) else kind_of(cur)
                 facts = []
-                st.env[n] = fresh(k, uid(n), (), facts)
+                nv = fresh(k, uid(n), (), facts)
+                if isinstance(cur, Ref) and isinstance(nv, Rec):
+                    nv = self.rec_to_obj(nv, st)
+                st.env[n] = nv
                 for f in facts:
                     st.assume(f)
+        done = set()
         for p in sorted(attrs):
             try:
                 self.havoc_path(p, st.env, st, sp.kinds)
             except (Unsupported, ContractError) as e:
                 raise Unsupported('cannot havoc %s for loop: %s' % (p, e))
+        if extra_cells:
+            self.havoc_cells(st, extra_cells, kinds_from)
         if has_yield and st.out is not None:
             facts = []
             ek = self.frame.contract.yields if self.frame.contract else None
@@ -1963,7 +2077,11 @@ class Engine:
         for j, inv in enumerate(sp.invariants):
             self.oblige(st, 'inv-init#%d.%d' % (idx, j), self.spec_bool(inv, st, None, self.frame.old), stmt, note=inv)
         # 2. havoc + assume invariant
-        self.havoc_for_loop(stmt.body, st, sp, hy)
+        if self.dry:
+            cells, names2, kf = set(), set(), {}
+        else:
+            cells, names2, kf = self.discover_modified(stmt, st, sp, guard, pre_body, hy)
+        self.havoc_for_loop(stmt.body, st, sp, hy, extra_cells=cells, extra_names=names2, kinds_from=kf)
         if pre_body is not None:
             pre_body('havoc', st)
         for inv in sp.invariants:
@@ -2097,6 +2215,11 @@ class Engine:
                 self.assumptions_used.add('%s: assumed axiom: %s' % (c.func, a_))
             for g, e in getattr(c, 'ghost_init', {}).items():
                 st.env[g] = self.spec(e, st)
+                if g in getattr(c, 'materialise_ghost', ()):
+                    v = st.env[g]
+                    if isinstance(v, View) and v.ekind is None:
+                        v.ekind = Int
+                    st.env[g] = self.materialise(v, st, g)
             fr.old = (dict(st.env), {k: HObj(o.cls, dict(o.fields)) for k, o in st.heap.items()})
             for r in c.requires:
                 st.assume(self.spec_bool(r, st, None, fr.old))
